@@ -41,17 +41,14 @@ def has_edge(A):
 class M:
     """fn(bct, A, ci) -> tuple of outputs; outs = ((label, kind, exact), ...)
     kind: v per-node vector | m per-pair matrix | s scalar | d distribution/array that must be unchanged |
-          ms multiset of rows | part partition given as label vector | x excluded (tie-dependent by definition, counted only)"""
+          ms multiset of rows | part partition given as label vector |
+          x / xp excluded matrix / matrix of node indices (tie-dependent by definition, counted only)"""
 
-    def __init__(self, name, dom, fn, outs, variant='', need=None, cond=None, t=5.0):
+    def __init__(self, name, dom, fn, outs, variant='', need=None, cond=None, t=5.0, uses_ci=False):
         self.name, self.dom, self.fn, self.outs, self.variant, self.need, self.t = name, dom, fn, outs, variant, need, t
+        self.uses_ci = uses_ci      # the measure reads the per-node input ci (else results are cached per labelled graph)
         self.cond = cond or {}
         self.key = name + (':' + variant if variant else '')
-
-
-def _ci_for(A):
-    """a deterministic 'community' vector that is data of the node (derived from the caller's numbering): node i -> label"""
-    raise NotImplementedError
 
 
 V, MM, S, D, MS = 'v', 'm', 's', 'd', 'ms'
@@ -71,7 +68,6 @@ def build_measures():
     add('strengths_dir', 'wd', lambda b, A, ci: (b.strengths_dir(A),), (('str', V, EX),))
     add('strengths_und_sign', 'su', lambda b, A, ci: b.strengths_und_sign(A),
         (('Spos', V, EX), ('Sneg', V, EX), ('vpos', S, EX), ('vneg', S, EX)))
-    add('jdegree', 'wd', lambda b, A, ci: b.jdegree(A), (('J', D, EX), ('J_od', S, EX), ('J_id', S, EX), ('J_bl', S, EX)))
     # ---- physical_connectivity.py
     add('density_und', 'wu', lambda b, A, ci: b.density_und(A), (('kden', S, EX), ('n', S, EX), ('k', S, EX)))
     add('density_dir', 'wd', lambda b, A, ci: b.density_dir(A), (('kden', S, EX), ('n', S, EX), ('k', S, EX)))
@@ -94,11 +90,11 @@ def build_measures():
     # ---- distance.py
     add('distance_bin', 'wd', lambda b, A, ci: (b.distance_bin(A),), (('D', MM, EX),))
     add('distance_wei', 'wd', lambda b, A, ci: b.distance_wei(A), (('D', MM, EX), ('B', 'x', EX)))
-    add('distance_wei_floyd', 'wd', lambda b, A, ci: b.distance_wei_floyd(A), (('SPL', MM, EX), ('hops', 'x', EX), ('Pmat', 'x', EX)))
+    add('distance_wei_floyd', 'wd', lambda b, A, ci: b.distance_wei_floyd(A), (('SPL', MM, EX), ('hops', 'x', EX), ('Pmat', 'xp', EX)))
     add('distance_wei_floyd', 'wd', lambda b, A, ci: b.distance_wei_floyd(A, transform='inv'),
-        (('SPL', MM, AP), ('hops', 'x', EX), ('Pmat', 'x', EX)), variant='inv')
+        (('SPL', MM, AP), ('hops', 'x', EX), ('Pmat', 'xp', EX)), variant='inv')
     add('distance_wei_floyd', 'wd', lambda b, A, ci: b.distance_wei_floyd(A / 16.0, transform='log'),
-        (('SPL', MM, AP), ('hops', 'x', EX), ('Pmat', 'x', EX)), variant='log')
+        (('SPL', MM, AP), ('hops', 'x', EX), ('Pmat', 'xp', EX)), variant='log')
     add('breadthdist', 'wd', lambda b, A, ci: b.breadthdist(A), (('R', MM, EX), ('D', MM, EX)))
     add('reachdist', 'wd', lambda b, A, ci: b.reachdist(A.copy()), (('R', MM, EX), ('D', MM, EX)))
     add('charpath', 'wd', lambda b, A, ci: b.charpath(b.distance_bin(A)),
@@ -118,16 +114,16 @@ def build_measures():
     add('edge_betweenness_bin', 'bd', lambda b, A, ci: b.edge_betweenness_bin(A), (('EBC', MM, AP), ('BC', V, AP)))
     add('edge_betweenness_wei', 'wd', lambda b, A, ci: b.edge_betweenness_wei(A), (('EBC', MM, AP), ('BC', V, AP)))
     add('pagerank_centrality', 'wd', lambda b, A, ci: (b.pagerank_centrality(A, 0.85),), (('r', V, AP),), variant='uniform')
-    add('pagerank_centrality', 'wd', lambda b, A, ci: (b.pagerank_centrality(A, 0.5, falff=np.asarray(ci, float) + 1.0),), (('r', V, AP),), variant='falff')
+    add('pagerank_centrality', 'wd', lambda b, A, ci: (b.pagerank_centrality(A, 0.5, falff=np.asarray(ci, float) + 1.0),), (('r', V, AP),), variant='falff', uses_ci=True)
     add('eigenvector_centrality_und', 'wu', lambda b, A, ci: (b.eigenvector_centrality_und(A),), (('v', V, AP),),
         need=lambda A: len(A) >= 2 and connected_und(A))
     add('subgraph_centrality', 'bu', lambda b, A, ci: (b.subgraph_centrality(A),), (('Cs', V, AP),))
     add('flow_coef_bd', 'bd', lambda b, A, ci: b.flow_coef_bd(A), (('fc', V, EX), ('FC', S, AP), ('total_flo', V, EX)))
-    add('participation_coef', 'wd', lambda b, A, ci: (b.participation_coef(A, ci),), (('P', V, AP),), variant='undirected/out')
-    add('participation_coef', 'wd', lambda b, A, ci: (b.participation_coef(A, ci, degree='in'),), (('P', V, AP),), variant='in')
-    add('participation_coef_sign', 'su', lambda b, A, ci: b.participation_coef_sign(A, ci), (('Ppos', V, AP), ('Pneg', V, AP)))
+    add('participation_coef', 'wd', lambda b, A, ci: (b.participation_coef(A, ci),), (('P', V, AP),), variant='undirected/out', uses_ci=True)
+    add('participation_coef', 'wd', lambda b, A, ci: (b.participation_coef(A, ci, degree='in'),), (('P', V, AP),), variant='in', uses_ci=True)
+    add('participation_coef_sign', 'su', lambda b, A, ci: b.participation_coef_sign(A, ci), (('Ppos', V, AP), ('Pneg', V, AP)), uses_ci=True)
     for fl in (0, 1, 2, 3):
-        add('module_degree_zscore', 'wd', lambda b, A, ci, fl=fl: (b.module_degree_zscore(A, ci, fl),), (('Z', V, AP),), variant='flag=%d' % fl)
+        add('module_degree_zscore', 'wd', lambda b, A, ci, fl=fl: (b.module_degree_zscore(A, ci, fl),), (('Z', V, AP),), variant='flag=%d' % fl, uses_ci=True)
     add('kcoreness_centrality_bu', 'bu', lambda b, A, ci: b.kcoreness_centrality_bu(A), (('coreness', V, EX), ('kn', D, EX)))
     add('kcoreness_centrality_bd', 'bd', lambda b, A, ci: b.kcoreness_centrality_bd(A), (('coreness', V, EX), ('kn', D, EX)))
     # ---- core.py
@@ -283,9 +279,14 @@ def check_pair(m, A, ci, p, base, permd, res):
                                            'base': str(base[:2])[:200], 'renumbered': str(permd[:2])[:200]}})
         return
     for (label, kind, exact), bo, po in zip(m.outs, base[1], permd[1]):
-        if kind == 'x':
+        if kind in ('x', 'xp'):
             # excluded output (defined only up to a choice among ties): count how often it moves, never a violation
-            if not compare(MM, True, bo, po, p):
+            if kind == 'xp':      # entries are node indices: renumber the values as well (off-diagonal cells)
+                inv = np.argsort(p); b2 = np.asarray(bo)[np.ix_(p, p)].astype(int); po2 = np.asarray(po).astype(int)
+                off = ~np.eye(len(p), dtype=bool)
+                if not np.array_equal(inv[b2][off], po2[off]):
+                    res['excluded_differs'] += 1
+            elif not compare(MM, True, bo, po, p):
                 res['excluded_differs'] += 1
             continue
         if not compare(kind, exact, bo, po, p):
@@ -318,7 +319,7 @@ def run_item(item):
     cache = {}
 
     def ev(A, ci):
-        k = (A.tobytes(), ci.tobytes())
+        k = (A.tobytes(), ci.tobytes() if m.uses_ci else b'')
         if k not in cache:
             cache[k] = evaluate(m, A, ci)
             res['calls'] += 1
@@ -326,8 +327,12 @@ def run_item(item):
 
     seen = set()
     if fam.startswith('exh'):
-        n, directed, subset = payload
-        graphs = list(all_graphs(n, directed)) if subset is None else [np.array(a, float) for a in subset]
+        n, directed, subset, weights = payload
+        graphs = list(all_graphs(n, directed, weights)) if subset is None else [np.array(a, float) for a in subset]
+        if directed:        # the symmetric ones are covered by the undirected enumeration of the same n
+            graphs = [A for A in graphs if not (A == A.T).all()]
+        if weights != (1,):  # the binary ones are covered by the binary enumeration
+            graphs = [A for A in graphs if graph_class(A)[0] != 'b']
         plist = perms_of(n)
         work = [(A, plist) for A in graphs]
     else:
@@ -453,19 +458,46 @@ def gen_families(rs, tier):
     quick = tier == 'quick'
     # exhaustive: all labelled graphs n <= 4 x all n! permutations
     for n in (1, 2, 3):
-        fams.append(('exh-u%d' % n, (n, False, None)))
-        fams.append(('exh-d%d' % n, (n, True, None)))
-    fams.append(('exh-u4', (4, False, None)))
+        fams.append(('exh-u%d' % n, (n, False, None, (1,))))
+        fams.append(('exh-d%d' % n, (n, True, None, (1,))))
+    fams.append(('exh-u4', (4, False, None, (1,))))
+    # every graph with weights in {1,2} / {1,-1} (the binary ones are skipped: covered above)
+    fams.append(('exh-wu3', (3, False, None, (1, 2))))
+    fams.append(('exh-wd3', (3, True, None, (1, 2))))
+    fams.append(('exh-su3', (3, False, None, (1, -1))))
+    if not quick:
+        fams.append(('exh-wu4', (4, False, None, (1, 2))))
+        fams.append(('exh-su4', (4, False, None, (1, -1))))
     if quick:
-        allg = None
-        idx = rs.choice(4096, size=28, replace=False)
-        sub = [A.tolist() for i, A in enumerate(all_graphs(4, True)) if i in set(idx.tolist())]
-        fams.append(('exh-d4-slice', (4, True, sub)))
+        idx = set(rs.choice(4096, size=120, replace=False).tolist())
+        sub = [A.tolist() for i, A in enumerate(all_graphs(4, True)) if i in idx]
+        fams.append(('exh-d4-slice', (4, True, sub, (1,))))
     else:
-        fams.append(('exh-d4', (4, True, None)))
+        fams.append(('exh-d4', (4, True, None, (1,))))
+        fams.append(('exh-u5', (5, False, None, (1,))))
+    # list families: no labelled graph occurs twice (so that distinct (measure, A, p) can be counted without storing them);
+    # 5-node binary undirected graphs are left out in the thorough tier, where exh-u5 covers all of them
+    seen_graphs = set()
+
+    def put(lst, A, perms):
+        A = np.asarray(A, float)
+        k = (A.shape[0], A.tobytes())
+        if k in seen_graphs or (not quick and len(A) == 5 and graph_class(A) == 'bu'):
+            return
+        seen_graphs.add(k)
+        lst.append((A.tolist(), perms))
+
+    # structured graphs: reversal, a rotation, random permutations (automorphisms included on purpose)
+    lst = []
+    for name, A in structured_graphs():
+        n = len(A)
+        ps = [list(range(n))[::-1], list(range(1, n)) + [0]] + [rs.permutation(n).tolist() for _ in range(2 if quick else 10)]
+        put(lst, A, ps)
+    put(lst, D17_WITNESS['A'], [D17_WITNESS['p']] + ([] if quick else [rs.permutation(5).tolist() for _ in range(10)]))
+    fams.append(('structured', lst))
     # sampled 5-node graphs x all 5! permutations
     p5 = [list(p) for p in itertools.permutations(range(5))]
-    n5 = 2 if quick else 14
+    n5 = 8 if quick else 60
     for cls in ('bu', 'bd', 'wu', 'wd', 'su'):
         lst = []
         for _ in range(n5):
@@ -473,11 +505,11 @@ def gen_families(rs, tier):
             A = rand_graph(rs, 5, dens, cls[1] == 'd', wmax=1 if cls[0] == 'b' else 4, signed=cls[0] == 's')
             if cls[0] == 's' and not (A < 0).any():
                 A[0, 1] = A[1, 0] = -1
-            lst.append((A.tolist(), p5))
+            put(lst, A, p5)
         fams.append(('n5-all120-' + cls, lst))
-    # random graphs n = 5..10 with random permutations
-    nr = 3 if quick else 30
-    npm = 2 if quick else 4
+    # random graphs n = 6..10 with random permutations
+    nr = 16 if quick else 150
+    npm = 3 if quick else 6
     for cls in ('bu', 'bd', 'wu', 'wd', 'su'):
         lst = []
         for _ in range(nr):
@@ -488,26 +520,18 @@ def gen_families(rs, tier):
                 A[0, 1] = A[1, 0] = -2
             if rs.rand() < .3 and n > 6:      # plant isolated nodes / a second component
                 k = int(rs.randint(1, 3)); A[:k, :] = 0; A[:, :k] = 0
-            lst.append((A.tolist(), [rs.permutation(n).tolist() for _ in range(npm)]))
+            put(lst, A, [rs.permutation(n).tolist() for _ in range(npm)])
         fams.append(('rand-' + cls, lst))
     # connected random undirected graphs (spectral measures need them): spanning path + chords
     lst = []
     for _ in range(nr):
-        n = int(rs.randint(5, 11))
+        n = int(rs.randint(6, 11))
         A = rand_graph(rs, n, rs.choice([.2, .4]), False)
         q = rs.permutation(n)
         for a, b in zip(q[:-1], q[1:]):
             A[a, b] = A[b, a] = 1
-        lst.append((A.tolist(), [rs.permutation(n).tolist() for _ in range(npm)]))
+        put(lst, A, [rs.permutation(n).tolist() for _ in range(npm)])
     fams.append(('rand-connected-bu', lst))
-    # structured graphs: reversal, a rotation, random permutations (automorphisms included on purpose)
-    lst = []
-    for name, A in structured_graphs():
-        n = len(A)
-        ps = [list(range(n))[::-1], list(range(1, n)) + [0]] + [rs.permutation(n).tolist() for _ in range(2 if quick else 10)]
-        lst.append((A.tolist(), ps))
-    lst.append((D17_WITNESS['A'], [D17_WITNESS['p']]))
-    fams.append(('structured', lst))
     return fams
 
 
@@ -518,8 +542,10 @@ def build_items(fams, only=None):
             continue
         for fam, payload in fams:
             if fam.startswith('exh'):
-                n, directed, sub = payload
+                n, directed, sub, weights = payload
                 if directed and m.dom in ('bu', 'wu', 'su'):
+                    continue
+                if weights != (1,) and m.dom[0] == 'b' or (-1 in weights and m.dom[0] != 's'):
                     continue
                 items.append((mi, fam, payload))
             else:
@@ -535,6 +561,16 @@ def build_items(fams, only=None):
     return items
 
 
+def pmap1(func, items, procs=None):
+    """like common.pmap but one item per task (items differ in cost by three orders of magnitude)"""
+    import multiprocessing as mp
+    procs = procs or min(16, os.cpu_count() or 4)
+    if len(items) < 2 * procs:
+        return [func(x) for x in items]
+    with mp.get_context('fork').Pool(procs) as pool:
+        return pool.map(func, items, chunksize=1)
+
+
 # --------------------------------------------------------------------------- D17 witness (replayed on the real code every run)
 # smallest counter-example of gtom(nr_steps=3) (exhaustive over n <= 5): the path 0-4-2-3-1 and the transposition (1 2)
 D17_WITNESS = {'A': [[0, 0, 0, 0, 1], [0, 0, 0, 1, 0], [0, 0, 0, 1, 1], [0, 1, 1, 0, 0], [1, 0, 1, 0, 0]], 'p': [0, 2, 1, 3, 4]}
@@ -546,9 +582,11 @@ def main():
     ck.cov['rule'] = ('cases = (measure, graph A, permutation p): the real measure is called on A and on A[ix_(p,p)] (node data such as ci/falff '
                       'renumbered with it) and the outputs compared as vectors (f(A)[p]), matrices (f(A)[ix_(p,p)]), scalars/distributions (equal), '
                       'multisets or partitions; graphs: every labelled graph n<=4 x all n! permutations (a random slice of the 4-node digraphs in the '
-                      'quick tier), sampled 5-node binary/weighted/signed graphs x all 120, random n=6..10 x random permutations, structured graphs '
-                      'with many automorphisms / degenerate spectra / ties in lengths; non-trivial = distinct (measure, A, p) with A non-empty and p '
-                      'not the identity')
+                      'quick tier), every graph with weights {1,2} (n=3; thorough: undirected n=4) or {1,-1} (undirected n=3; thorough: n=4), sampled 5-node binary/weighted/signed graphs x all 120, random n=6..10 x random permutations, structured graphs '
+                      'with many automorphisms / degenerate spectra / ties in lengths; non-trivial = distinct (measure variant, A, p) with A non-empty '
+                      'and p not the identity, counted in the workers: the families are disjoint by construction (exhaustive ones by n / '
+                      'directedness, list families never repeat a labelled graph and skip 5-node binary undirected graphs when exh-u5 runs) and '
+                      'repeated permutations of one graph are counted once')
     ck.assumptions += ['each measure is exercised on its documented domain (binary vs weighted, undirected vs directed, connected for eigenvector '
                        'centrality, empty diagonal); floats compared exactly where the output is an integer or one division of integers, within 1e-9 otherwise',
                        'outputs the library defines only up to a choice among ties (hops and Pmat of distance_wei_floyd, B of distance_wei) are excluded',
@@ -567,9 +605,11 @@ def main():
     else:
         fams = gen_families(ck.rs, ck.tier)
     items = build_items(fams, only)
-    order = ck.rs.permutation(len(items))
-    items = [items[i] for i in order]
-    results = pmap(run_item, items)
+    # heavy items (exhaustive families) first, one item per task so that the pool balances
+    weight = lambda it: -(len(list(it[2][2])) if it[1].startswith('exh') and it[2][2] is not None else
+                          ((1 + len(it[2][3])) ** (it[2][0] * (it[2][0] - 1) // (1 if it[2][1] else 2)) if it[1].startswith('exh') else len(it[2])))
+    items.sort(key=weight)
+    results = pmap1(run_item, items)
     table = {}
     for r in results:
         t = table.setdefault(r['measure'], {'pairs': 0, 'calls': 0, 'timeouts': 0, 'both_raise': 0, 'excluded_outputs_differ': 0, 'nontrivial': 0})
